@@ -46,8 +46,8 @@ func (node *tagIncludeNode) Execute(ctx *ExecutionContext, writer TemplateWriter
 
 		includedTpl, err2 := ctx.template.set.FromFile(includedFilename)
 		if err2 != nil {
-			// if this is ReadFile error, and "if_exists" flag is enabled
-			if node.ifExists && err2.(*Error).Sender == "fromfile" {
+			// if this is ReadFile error of the very file, and "if_exists" flag is enabled
+			if node.ifExists && err2.(*Error).Sender == "fromfile" && err2.(*Error).Filename == includedFilename {
 				return nil
 			}
 			return err2.(*Error)
@@ -99,8 +99,9 @@ func tagIncludeParser(doc *Parser, start *Token, arguments *Parser) (INodeTag, *
 		includeNode.filename = includedFilename
 		includedTpl, err := doc.template.set.fromFileLoadedBy(doc.template, includedFilename)
 		if err != nil {
-			// if this is ReadFile error, and "if_exists" token presents we should create and empty node
-			if err.(*Error).Sender == "fromfile" && ifExists {
+			// if this is ReadFile error of the very file (and not of one it refers
+			// to in turn), and "if_exists" token presents we should create and empty node
+			if err.(*Error).Sender == "fromfile" && err.(*Error).Filename == includedFilename && ifExists {
 				return &tagIncludeEmptyNode{}, nil
 			}
 			return nil, err.(*Error).updateFromTokenIfNeeded(doc.template, filenameToken)
